@@ -42,6 +42,10 @@ def summarise(run, res):
                 kind = 'fwd:poison'
             elif st.get('rep'):
                 kind = 'fwd:repeat'
+            elif any(i.get('mode') == 'feedback' for i in st['inputs']):
+                kind = 'fwd:feedback'
+            elif any(i.get('mode') == 'overwrite' for i in st['inputs']):
+                kind = 'fwd:overwritten_object'
         elif op == 'rev' and st.get('bad'):
             kind = 'rev:bad_seed'
         ops[kind] = ops.get(kind, 0) + 1
